@@ -14,7 +14,7 @@ const seedMinimal = `{"swagger":"2.0","info":{"title":"t","version":"1"},"paths"
 const seedParams = `{"swagger":"2.0","info":{"title":"t","version":"1"},"consumes":["application/json"],"produces":["application/json"],
 "parameters":{"lim":{"name":"limit","in":"query","type":"integer","format":"int32","maximum":100,"default":10},"hdr":{"name":"X-Trace","in":"header","type":"string"},"off":{"name":"offset","in":"query","type":"integer"},"pid":{"name":"pid","in":"path","required":true,"type":"string"},"srt":{"name":"sort","in":"query","type":"string","enum":["a","b"]},"frm":{"name":"upload","in":"formData","type":"file"}},
 "paths":{"/p/{id}":{"parameters":[{"name":"id","in":"path","required":true,"type":"string","pattern":"^[a-z]+$"}],
- "post":{"operationId":"p","parameters":[{"$ref":"#/parameters/lim"},{"name":"h","in":"header","type":"array","items":{"type":"string","enum":["a","b"]},"collectionFormat":"csv"},
+ "post":{"operationId":"p","parameters":[{"$ref":"#/parameters/lim"},{"name":"h","in":"header","type":"array","items":{"type":"string","enum":["a","b"]},"collectionFormat":"csv","default":["a"]},
    {"name":"body","in":"body","required":true,"schema":{"$ref":"#/definitions/Item"}}],
   "responses":{"200":{"description":"ok","schema":{"type":"array","items":{"$ref":"#/definitions/Item"}},"headers":{"X-Rate":{"type":"integer","default":1}},"examples":{"application/json":[{"name":"n"}]}},"default":{"$ref":"#/responses/err"}}},
  "put":{"operationId":"u","consumes":["multipart/form-data"],"parameters":[{"name":"f","in":"formData","type":"file"},{"name":"q","in":"formData","type":"string","minLength":1}],"responses":{"204":{"description":"done"}}}}},
@@ -253,6 +253,38 @@ func singleEdits(seedName, seed string, extraNames bool) []specEdit {
 						return true
 					}); ok {
 						emit(fmt.Sprintf("add $ref %q to %s", ref, pt), d)
+					}
+				}
+			}
+			// an invalid regular expression wherever a pattern lives, and as a patternProperties key of
+			// every schema object that declares properties
+			if len(p) > 0 && p[len(p)-1] == "pattern" {
+				if d, ok := editAt(root, p, func(parent, key any) bool { parent.(map[string]any)["pattern"] = "^(unclosed"; return true }); ok {
+					emit("set "+pt+" to an invalid regular expression", d)
+				}
+			}
+			if o, isObj := n.val.(map[string]any); isObj {
+				if _, has := o["properties"]; has {
+					for _, key := range []string{"^(unclosed", "^ok$"} {
+						if d, ok := editAt(root, p, func(parent, k any) bool {
+							var obj map[string]any
+							switch t := parent.(type) {
+							case map[string]any:
+								obj, _ = t[k.(string)].(map[string]any)
+							case []any:
+								obj, _ = t[k.(int)].(map[string]any)
+							}
+							if obj == nil {
+								return false
+							}
+							obj["patternProperties"] = map[string]any{key: map[string]any{"type": "string"}}
+							if _, hasReq := obj["required"]; !hasReq {
+								obj["required"] = []any{"zz"}
+							}
+							return true
+						}); ok {
+							emit(fmt.Sprintf("add patternProperties %q to %s", key, pt), d)
+						}
 					}
 				}
 			}
